@@ -61,6 +61,23 @@ pub fn eval(case: &Case, st: &mut Stats) -> Result<(), String> {
         _ => panic!("ORACLE SELF-CHECK: models disagree on acceptance: {:?} / {:?} / {:?}", ra.is_ok(), rb.is_ok(), rb_plain.is_ok()),
     }
     let mut g = Generator::new();
+    if case.split % 2 == 1 {
+        // a re-used generator: an earlier life that reached every block-size level (a level-30 word switches the
+        // last-piece hash on) and filled low levels, then reset - it must behave exactly like a new one
+        static NOISE: std::sync::OnceLock<Vec<u8>> = std::sync::OnceLock::new();
+        let noise = NOISE.get_or_init(|| {
+            let mut v = vec![0u8; 20000];
+            oracle::words::SplitMix(0xC13).fill(&mut v);
+            v
+        });
+        must("first life", || {
+            g.update(b"`]]]_CT");
+            g.update(noise);
+            let _ = g.finalize();
+            g.reset();
+        })?;
+        st.class("reused_generator_after_reset");
+    }
     if case.declare % 3 == 1 {
         let r = must("set_fixed_input_size", || g.set_fixed_input_size(total))?;
         if total <= MAX_INPUT_SIZE {
